@@ -2,22 +2,63 @@ package main
 
 import (
 	"go/ast"
+	"regexp"
 	"strings"
 )
 
-// C05 (also used by C19): the start-block wiring of app.Run, per `case "<chain type>"` of the switch over
-// chainConfig["type"]:
-//   reads     — `startBlock, err := blockstore.GetStartBlock(id, config.StartBlock, …LatestBlock, …FreshStart)`
-//   boot      — `if startBlock == nil { … startBlock = head }`
-//   aligns    — `startBlock, err = chains.CalculateStartingBlock(startBlock, config.BlockInterval)`
-//   handsOver — the chain constructor (New…Chain) receives `startBlock` as its last argument
-//   ordered   — these statements appear in this order
-// plus: BtcChain.PollEvents hands c.startBlock to ListenToEvents and NewBtcChain stores its parameter.
+// C05 (also used by C19): the start-block wiring of app.Run, per `case "<chain type>"` of the switch over the chain
+// type, located by SHAPE — through the exported API names it must use, never through the names of locals:
+//   reads     — V := <x>.GetStartBlock(id, <c>.StartBlock, <c>….LatestBlock, <c>….FreshStart)         (V = the start variable)
+//   boot      — `if V == nil { … V = <something obtained from LatestBlock()> }`
+//   aligns    — V' := <pkg>.CalculateStartingBlock(V, <c>.BlockInterval)                               (V' becomes the start variable)
+//   handsOver — a constructor New…Chain(…) receives the start variable as its last argument
+//   ordered   — in this order
+// A case clause that contains neither the read nor a chain constructor (the branch was moved into a helper) is
+// UNAVAILABLE, not different. Plus: NewBtcChain stores its *big.Int parameter in a field F, and PollEvents hands
+// <receiver>.F to ListenToEvents.
+var chainCtor = regexp.MustCompile(`^New\w*Chain$`)
+
+func c05FunName(e ast.Expr) string {
+	switch f := e.(type) {
+	case *ast.Ident:
+		return f.Name
+	case *ast.SelectorExpr:
+		return f.Sel.Name
+	}
+	return ""
+}
+
+func c05SelName(e ast.Expr) string {
+	if s, ok := e.(*ast.SelectorExpr); ok {
+		return s.Sel.Name
+	}
+	return ""
+}
+
+func c05IsNilCheck(e ast.Expr, v string) bool {
+	b, ok := e.(*ast.BinaryExpr)
+	if !ok || b.Op.String() != "==" {
+		return false
+	}
+	return (Src(b.X) == v && Src(b.Y) == "nil") || (Src(b.Y) == v && Src(b.X) == "nil")
+}
+
+func c05CallsNamed(n ast.Node, name string) bool {
+	found := false
+	Walk(n, func(m ast.Node) bool {
+		if c, ok := m.(*ast.CallExpr); ok && c05FunName(c.Fun) == name {
+			found = true
+		}
+		return true
+	})
+	return found
+}
+
 func init() {
 	extractors["C05"] = func(o *Out) {
 		f := o.ParseFile("app/app.go")
 		run := FindFunc(f, "", "Run")
-		type wire struct{ reads, boot, aligns, hands, ordered bool }
+		type wire struct{ reads, boot, aligns, hands, ordered, located bool }
 		ws := map[string]wire{}
 		if run != nil {
 			Walk(run.Body, func(n ast.Node) bool {
@@ -34,46 +75,63 @@ func init() {
 					return true
 				}
 				w := wire{}
+				cur := ""
 				var pRead, pBoot, pAlign, pHand int
+				hasCtor := false
 				for _, st := range cc.Body {
 					Walk(st, func(m ast.Node) bool {
 						switch s := m.(type) {
 						case *ast.AssignStmt:
-							if len(s.Lhs) >= 1 && Src(s.Lhs[0]) == "startBlock" && len(s.Rhs) == 1 {
-								if c, ok := s.Rhs[0].(*ast.CallExpr); ok {
-									switch Src(c.Fun) {
-									case "blockstore.GetStartBlock":
-										if len(c.Args) == 4 && Src(c.Args[1]) == "config.StartBlock" &&
-											Src(c.Args[2]) == "config.GeneralChainConfig.LatestBlock" && Src(c.Args[3]) == "config.GeneralChainConfig.FreshStart" {
-											w.reads = true
-											pRead = int(s.Pos())
-										}
-									case "chains.CalculateStartingBlock":
-										if len(c.Args) == 2 && Src(c.Args[0]) == "startBlock" && Src(c.Args[1]) == "config.BlockInterval" {
-											w.aligns = true
-											pAlign = int(s.Pos())
-										}
-									}
+							if len(s.Rhs) != 1 || len(s.Lhs) < 1 {
+								return true
+							}
+							c, ok := s.Rhs[0].(*ast.CallExpr)
+							id, isID := s.Lhs[0].(*ast.Ident)
+							if !ok || !isID {
+								return true
+							}
+							switch c05FunName(c.Fun) {
+							case "GetStartBlock":
+								if len(c.Args) == 4 && c05SelName(c.Args[1]) == "StartBlock" && c05SelName(c.Args[2]) == "LatestBlock" && c05SelName(c.Args[3]) == "FreshStart" {
+									w.reads = true
+									cur = id.Name
+									pRead = int(s.Pos())
+								}
+							case "CalculateStartingBlock":
+								if cur != "" && len(c.Args) == 2 && Src(c.Args[0]) == cur && c05SelName(c.Args[1]) == "BlockInterval" {
+									w.aligns = true
+									cur = id.Name
+									pAlign = int(s.Pos())
 								}
 							}
 						case *ast.IfStmt:
-							if Src(s.Cond) == "startBlock == nil" && strings.Contains(Src(s.Body), "startBlock = head") {
-								w.boot = true
-								pBoot = int(s.Pos())
+							if cur != "" && c05IsNilCheck(s.Cond, cur) {
+								assigned := false
+								Walk(s.Body, func(k ast.Node) bool {
+									if a, ok := k.(*ast.AssignStmt); ok && len(a.Lhs) >= 1 && Src(a.Lhs[0]) == cur {
+										assigned = true
+									}
+									return true
+								})
+								if assigned && c05CallsNamed(s.Body, "LatestBlock") {
+									w.boot = true
+									pBoot = int(s.Pos())
+								}
 							}
 						case *ast.CallExpr:
-							fn := Src(s.Fun)
-							if strings.HasSuffix(fn, "Chain") && strings.Contains(fn, ".New") && len(s.Args) > 0 {
-								if Src(s.Args[len(s.Args)-1]) == "startBlock" {
+							if chainCtor.MatchString(c05FunName(s.Fun)) && len(s.Args) > 0 {
+								hasCtor = true
+								if cur != "" && Src(s.Args[len(s.Args)-1]) == cur {
 									w.hands = true
 									pHand = int(s.Pos())
 								}
-								o.Facts["ctor_"+name] = fn
+								o.Facts["ctor_"+name] = c05FunName(s.Fun)
 							}
 						}
 						return true
 					})
 				}
+				w.located = w.reads || hasCtor
 				w.ordered = w.reads && w.hands && pRead < pHand && (!w.boot || (pRead < pBoot && pBoot < pHand)) &&
 					(!w.aligns || (pRead < pAlign && pAlign < pHand)) && (!(w.boot && w.aligns) || pBoot < pAlign)
 				ws[name] = w
@@ -89,31 +147,66 @@ func init() {
 		o.Lean.WriteString("structure Wire where\n  reads : Bool\n  boot : Bool\n  aligns : Bool\n  handsOver : Bool\n  ordered : Bool\nderiving DecidableEq, Repr\n\n")
 		for _, n := range []string{"evm", "substrate", "btc"} {
 			w := ws[n]
-			o.Facts["wiring_"+n] = map[string]bool{"reads": w.reads, "boot": w.boot, "aligns": w.aligns, "handsOver": w.hands, "ordered": w.ordered}
-			o.Lean.WriteString("def " + n + " : Wire := ⟨" + b(w.reads) + ", " + b(w.boot) + ", " + b(w.aligns) + ", " + b(w.hands) + ", " + b(w.ordered) + "⟩\n")
+			o.Facts["wiring_"+n] = map[string]bool{"located": w.located, "reads": w.reads, "boot": w.boot, "aligns": w.aligns, "handsOver": w.hands, "ordered": w.ordered}
+			if !w.located {
+				o.Unavailable("wiring_"+n, "the `"+n+"` branch of app.Run with its GetStartBlock read / chain constructor was not located (moved into a helper?)")
+			}
+			o.Lean.WriteString("def " + n + " : Option Wire := " + LeanOpt(w.located, "⟨"+b(w.reads)+", "+b(w.boot)+", "+b(w.aligns)+", "+b(w.hands)+", "+b(w.ordered)+"⟩") + "\n")
 		}
-		// BtcChain: constructor stores the start block, PollEvents passes it on
+		// BtcChain: the constructor stores its *big.Int parameter in a field, PollEvents passes that field on
 		cf := o.ParseFile("chains/btc/chain.go")
-		stores, passes := false, false
+		located, stores, passes := false, false, false
+		field := ""
 		if fd := FindFunc(cf, "", "NewBtcChain"); fd != nil {
+			bigParams := map[string]bool{}
+			for _, p := range fd.Type.Params.List {
+				if Src(p.Type) == "*big.Int" {
+					for _, nm := range p.Names {
+						bigParams[nm.Name] = true
+					}
+				}
+			}
+			located = true
 			Walk(fd.Body, func(n ast.Node) bool {
-				if kv, ok := n.(*ast.KeyValueExpr); ok && Src(kv.Key) == "startBlock" && Src(kv.Value) == "startBlock" {
-					stores = true
+				if kv, ok := n.(*ast.KeyValueExpr); ok {
+					if id, ok := kv.Value.(*ast.Ident); ok && bigParams[id.Name] {
+						stores = true
+						field = Src(kv.Key)
+					}
 				}
 				return true
 			})
 		}
-		if fd := FindFunc(cf, "BtcChain", "PollEvents"); fd != nil {
+		if fd := FindFunc(cf, "BtcChain", "PollEvents"); fd != nil && located {
+			c := newGctx(cf, fd)
 			Walk(fd.Body, func(n ast.Node) bool {
-				if g, ok := n.(*ast.GoStmt); ok && Src(g.Call) == "c.listener.ListenToEvents(ctx, c.startBlock)" {
+				call, ok := n.(*ast.CallExpr)
+				if !ok || c05FunName(call.Fun) != "ListenToEvents" || len(call.Args) == 0 {
+					return true
+				}
+				last := call.Args[len(call.Args)-1]
+				c.collectDefsAt(call.Pos())
+				for i := 0; i < 4; i++ { // a local that merely names the field
+					if id, ok := last.(*ast.Ident); ok {
+						if d, ok := c.defs[id.Name]; ok {
+							last = d
+							continue
+						}
+					}
+					break
+				}
+				if s, ok := last.(*ast.SelectorExpr); ok && field != "" && s.Sel.Name == field && Src(s.X) == c.recv {
 					passes = true
 				}
 				return true
 			})
+		} else {
+			located = false
 		}
-		o.Facts["btc_chain_stores_start"] = stores
-		o.Facts["btc_poll_passes_start"] = passes
-		o.Lean.WriteString("def btcChainStoresStart : Bool := " + b(stores) + "\n")
-		o.Lean.WriteString("def btcPollPassesStart : Bool := " + b(passes) + "\n")
+		o.Facts["btc_chain"] = map[string]interface{}{"located": located, "field": field, "stores": stores, "passes": passes}
+		if !located {
+			o.Unavailable("btcChain", "NewBtcChain / BtcChain.PollEvents were not located")
+		}
+		o.Lean.WriteString("def btcChain : Option (Bool × Bool) := " + LeanOpt(located, b(stores)+", "+b(passes)) + "\n")
 	}
 }
